@@ -386,6 +386,8 @@ class Norm:
                                 "nfrag": e["nfrag"], "len": e["len"], "ppid": e["ppid"], "ord": bool(e["ordered"])})
                 else:
                     out.append({"e": "other", "i": i, "s": s, "what": ev})
+            elif comp == "net" and ev != "pkt":
+                out.append({"e": "other", "i": i, "s": "P", "what": ev})
             elif comp == "net":
                 types = [c["type"] for c in e["chunks"]]
                 itag = 0
